@@ -325,15 +325,13 @@ Section Respelling.
 End Respelling.
 
 (* A BLANK frontmatter block (whitespace only) is dropped by the emitter, so x and canon x differ in dfront (Some blank / None).
-   The verdict survives that IF the frontmatter oracle treats a blank block like an absent one -- an explicit hypothesis about
-   validate_frontmatter, tested by the harness on every blank-frontmatter respelling; where it fails (a TAB-only block is rejected
-   by yaml.safe_load) the verdicts differ: finding C09-blank-frontmatter-unloadable *)
+   validate_frontmatter takes its ABSENT branch for such a block (repo fix c9997f1; the decision is read from the source on every
+   run: vt_fm_blank_is_absent), so the verdict is the same -- for EVERY oracle.  (Before the fix a TAB-only block went to
+   yaml.safe_load and was reported E_FM_PARSE: fixed finding C09-blank-frontmatter-unloadable.) *)
 Definition blank_front (sp : N -> bool) (f : option str) : option str :=
   match f with Some t => if forallb sp t then None else Some t | None => None end.
 Definition drop_blank_front (sp : N -> bool) (d : doc) : doc :=
   mkDoc (dname d) (dgrammar d) (blank_front sp (dfront d)) (dsep d) (dmeta d) (dsections d) (dtrailing d).
-Definition fm_blank_as_absent (o : oracles) (sp : N -> bool) : Prop :=
-  forall t : str, forallb sp t = true -> or_fm o (Some t) = or_fm o None.
 
 Lemma emit_drop_blank_front sp d : emit sp (drop_blank_front sp d) = emit sp d.
 Proof.
@@ -341,40 +339,47 @@ Proof.
   destruct (dfront d) as [t|]; [|reflexivity]. destruct (forallb sp t) eqn:E; [reflexivity|]. rewrite E. reflexivity.
 Qed.
 
-Theorem validator_errors_blank_front o sp bm strict ss d :
-  fm_blank_as_absent o sp -> validator_errors o bm strict ss (drop_blank_front sp d) = validator_errors o bm strict ss d.
+Lemma fm_errors_blank o sd f : fm_errors o sd (blank_front (or_sp o) f) = fm_errors o sd f.
 Proof.
-  intro H. destruct d as [nm gr fr sepb mt secs tr]. unfold validator_errors, drop_blank_front, blank_front.
-  cbn [dfront dmeta dsections dname dgrammar dsep dtrailing].
-  destruct fr as [t|]; [|reflexivity]. destruct (forallb sp t) eqn:E; [|reflexivity].
-  destruct ss as [sd|]; [destruct (sd_has_fm sd)|]; rewrite ?(H t E); reflexivity.
+  unfold fm_errors, blank_front. rewrite pin_vt_fm_blank_is_absent. change pinned_vt_fm_blank_is_absent with true. cbn [andb].
+  destruct (sd_has_fm sd); [|reflexivity]. destruct f as [t|]; [|reflexivity].
+  destruct (forallb (or_sp o) t) eqn:E; [reflexivity|]. rewrite E. reflexivity.
 Qed.
-Theorem verdict_blank_front o sp s p d :
-  fm_blank_as_absent o sp -> verdict o s p (drop_blank_front sp d) = verdict o s p d.
-Proof. intro H. unfold verdict. rewrite !(validator_errors_blank_front o sp _ _ _ d H). reflexivity. Qed.
 
-Definition verdict_blank_front_full : Prop :=
-  forall o sp s p d, verdict o s p (drop_blank_front sp d) = verdict o s p d.
-Definition ex_fm_sdef : sdef :=
-  mksdef (lit "S") (mkschema [(lit "F", Some [COpt])] p_IGNORE) [(lit "F", Some (lit "SELF"))] None [] true.
-(* the frontmatter oracle as the code behaves on a TAB-only block: E_FM_PARSE for the block, nothing when it is absent *)
-Definition ex_fm_oracles : oracles :=
-  mkoracles (fun _ => FNan) (fun _ _ => orc_none) (fun c => N.eqb c 32 || N.eqb c 9)
-            (fun f => match f with Some _ => [(lit "E_FM_PARSE", lit "frontmatter")] | None => [] end).
-Theorem verdict_blank_front_refuted : ~ verdict_blank_front_full.
+Theorem validator_errors_blank_front o bm strict ss d :
+  validator_errors o bm strict ss (drop_blank_front (or_sp o) d) = validator_errors o bm strict ss d.
 Proof.
-  intro H.
-  specialize (H ex_fm_oracles (fun c => N.eqb c 32 || N.eqb c 9) (mkvschema None (Some ex_fm_sdef)) (lit "STANDARD")
-                (mkDoc (lit "D") None (Some [9]) false [] [NBlock (lit "S") None [NAssign (lit "F") (VNum false (lit "1")) [] None] []] [])).
-  vm_compute in H. discriminate.
+  destruct d as [nm gr fr sepb mt secs tr]. unfold validator_errors, drop_blank_front.
+  cbn [dfront dmeta dsections dname dgrammar dsep dtrailing].
+  destruct ss as [sd|]; [rewrite fm_errors_blank|]; reflexivity.
 Qed.
-Example fm_blank_as_absent_ex :
-  fm_blank_as_absent (mkoracles (fun _ => FNan) (fun _ _ => orc_none) (fun c => N.eqb c 32)
-                        (fun f => match blank_front (fun c => N.eqb c 32) f with
-                                  | Some _ => []
-                                  | None => [(lit "E_FM_REQUIRED", lit "frontmatter.name")]
-                                  end)) (fun c => N.eqb c 32).
-Proof. intros t Ht. cbn [or_fm blank_front]. rewrite Ht. reflexivity. Qed.
+Theorem verdict_blank_front o s p d : verdict o s p (drop_blank_front (or_sp o) d) = verdict o s p d.
+Proof. unfold verdict. rewrite !validator_errors_blank_front. reflexivity. Qed.
+
+(* the absent branch itself, and non-vacuity: a TAB-only block with required fields is reported exactly like no frontmatter,
+   a non-blank text goes to the oracle *)
+Definition ex_fm_sdef : sdef :=
+  mksdef (lit "S") (mkschema [(lit "F", Some [COpt])] p_IGNORE) [(lit "F", Some (lit "SELF"))] None [] true [lit "name"; lit "tools"].
+Definition ex_fm_oracles : oracles :=
+  mkoracles (fun _ => FNan) (fun _ _ => orc_none) (fun c => N.eqb c 32 || N.eqb c 9) (fun _ => [(lit "E_FM_PARSE", lit "frontmatter")]).
+Example fm_errors_ex :
+  fm_errors ex_fm_oracles ex_fm_sdef None = [(lit "E_FM_REQUIRED", lit "frontmatter.name"); (lit "E_FM_REQUIRED", lit "frontmatter.tools")] /\
+  fm_errors ex_fm_oracles ex_fm_sdef (Some [9]) = fm_errors ex_fm_oracles ex_fm_sdef None /\
+  fm_errors ex_fm_oracles ex_fm_sdef (Some []) = fm_errors ex_fm_oracles ex_fm_sdef None /\
+  fm_errors ex_fm_oracles ex_fm_sdef (Some (lit "x: [1")) = [(lit "E_FM_PARSE", lit "frontmatter")] /\
+  option_map tv_status (verdict ex_fm_oracles (mkvschema None (Some ex_fm_sdef)) (lit "STANDARD")
+     (mkDoc (lit "D") None (Some [9]) false [] [NBlock (lit "S") None [NAssign (lit "F") (VNum false (lit "1")) [] None] []] []))
+    = Some (lit "INVALID").
+Proof. vm_compute. repeat split. Qed.
+Theorem fm_tables :
+  vt_fm_blank_is_absent = true /\ vt_fm_absent_test = lit "raw_frontmatter is None or not raw_frontmatter.strip()" /\
+  vt_fm_absent_code = lit "E_FM_REQUIRED" /\ vt_fm_absent_prefix = lit "frontmatter." /\
+  vt_src_fm_absent_branch = pinned_vt_src_fm_absent_branch.
+Proof.
+  rewrite pin_vt_fm_blank_is_absent, pin_vt_fm_absent_test, pin_vt_fm_absent_code, pin_vt_fm_absent_prefix.
+  split; [reflexivity|]. split; [vm_compute; reflexivity|]. split; [vm_compute; reflexivity|]. split; [vm_compute; reflexivity|].
+  exact pin_vt_src_fm_absent_branch.
+Qed.
 
 (* without the round-trip hypothesis: "equal canonical text => equal verdict" is FALSE of the faithful model, because the
    emitter prints a non-finite float and the string of the same spelling alike (C02 finding nonfinite-float:
@@ -384,7 +389,7 @@ Definition verdict_of_canonical_text_full : Prop :=
 
 Definition ex_sdef : sdef :=
   mksdef (lit "S") (mkschema [(lit "F", Some [CReq; CType s_NUMBER]); (lit "G", Some [COpt; CEnum [lit "A"; lit "B"]])] p_REJECT)
-         [(lit "F", Some (lit "SELF")); (lit "G", None)] None [] false.
+         [(lit "F", Some (lit "SELF")); (lit "G", None)] None [] false [].
 Definition ex_schema : vschema := mkvschema None (Some ex_sdef).
 Definition ex_oracles : oracles :=
   mkoracles (fun c => if str_eqb c (lit "inf") then FInf false else FFin (5 # 2)%Q) (fun _ _ => orc_none) (fun c => N.eqb c 32) (fun _ => []).
@@ -472,7 +477,7 @@ Proof. vm_compute. repeat split. Qed.
 
 (* target routing: a field without explicit target inherits the block target; an unknown multi-target part is E009 *)
 Example route_ex :
-  let sd := mksdef (lit "S") (mkschema [(lit "F", Some [COpt])] p_IGNORE) [(lit "F", None)] None [lit "ARCHIVE"] false in
+  let sd := mksdef (lit "S") (mkschema [(lit "F", Some [COpt])] p_IGNORE) [(lit "F", None)] None [lit "ARCHIVE"] false [] in
   let d t := mkDoc [] None None false [] [NBlock (lit "S") t [NAssign (lit "F") (VNum false (lit "1")) [] None] []] [] in
   option_map tv_errors (verdict ex_oracles (mkvschema None (Some sd)) (lit "STANDARD") (d (Some (lit "X")))) = Some [] /\
   option_map tv_errors (verdict ex_oracles (mkvschema None (Some sd)) (lit "STANDARD") (d None)) = Some [] /\
